@@ -40,6 +40,42 @@ def derived_cases(rng, tier):
     return cases
 
 
+def record_as_tuple_cases(rng, n):
+    """Evolved-record bytes read by a TUPLE of the record's initial-version fields (tuples accept the evolved-record
+    form: DESIGN 4.5 item 7): `xrt (named i) value (tup t1 .. tk) suffix`. A tuple reader is the oldest possible reader
+    of the record: header entries (made-optional positions, removed names), later chunks and their sizes must all be
+    honoured. The reference decoder gives the documented answer (value, bytes left, or the error)."""
+    cases = []
+    tries = 0
+    while len(cases) < n and tries < 40 * n:
+        tries += 1
+        env = G.gen_env(rng)
+        recs = [i for i, d in enumerate(env) if d["kind"] == "rec" and d["steps"]]
+        if not recs:
+            continue
+        i = rng.choice(recs)
+        d = env[i]
+        added = {s[1] for s in d["steps"] if s[0] == "add"}
+        made_opt = {s[1] for s in d["steps"] if s[0] == "opt"}
+        chunk0 = [f for f in d["fields"] if f["transient"] is None and f["name"] not in added]
+        if not 1 <= len(chunk0) <= 8:
+            continue
+        comps = []
+        for f in chunk0:
+            t = f["ty"]
+            if f["name"] in made_opt and t[0] == "opt" and rng.random() < 0.6:
+                t = t[1]                    # the type the field had before it was made optional
+            comps.append(t)
+        if rng.random() < 0.15 and len(comps) > 1:
+            comps = comps[:-1]              # a reader that knows fewer fields
+        tr = ("tup", comps)
+        c = mk(env, ("named", i), G.gen_value_d(rng, ("named", i), env, 0.8, 0), rng.choice(SUFFIXES), "xrt")
+        c["ty2"] = G.show_ty(tr)
+        c["env2"] = c["env"]                # the reader knows the same declarations (for nested named types)
+        cases.append(c)
+    return cases
+
+
 def split_rt(line):
     """'ok HEX VAL ; ok DEC REST' -> (enc_status, hex, dec_status, dec_val, rest)"""
     enc_part, _, dec_part = line.partition(" ; ")
